@@ -26,6 +26,7 @@ pub mod c14;
 pub mod c14_more;
 pub mod c05;
 pub mod c05_reenc;
+pub mod c05_fast;
 pub mod c13;
 pub mod c13_more;
 pub mod c13_seek;
